@@ -324,7 +324,16 @@ def decision_tables(repo, res):
         # non-temperature and single-operand calls keep the first unit
         for args, tag in (([other, byname["K"]], "non-temperature"), ([byname["degC"]], "single-operand"), ([byname["K"], None], "second-is-None")):
             if fname == "_difference_units" and tag == "single-operand":
-                continue  # point - nothing is not a call form (reductions use _preserve_units)
+                # np.subtract.reduce / accumulate ask the rule with ONE unit: readings minus readings is a difference
+                for pt in recs:
+                    if kind(pt) != "point" or pt.name not in ("degC", "degF"):
+                        continue
+                    for form in ([pt], [pt, None]):
+                        o1 = decide(arr, fn, form, glob)
+                        lab1 = o1.value[1] if o1.kind == "return" and isinstance(o1.value, tuple) and len(o1.value) == 2 else None
+                        okr = isinstance(lab1, Rec) and o1.value[0] == 1 and kind(lab1) == "difference" and lab1.attrs["base_value"] == pt.attrs["base_value"]
+                        res.check(okr, f"{fname}:reduce:{pt.name}:{len(form)}", fn.where(o1.node), f"np.subtract.reduce of {pt.name} readings (the rule is asked with a single unit) is a difference in {pt.name}'s degree size; {fname} labels it {getattr(lab1, 'name', o1)}", f"delta_{pt.name}", getattr(lab1, "name", str(o1)), rid=r5)
+                continue
             out = decide(arr, fn, args, glob)
             res.check(out.kind == "return" and isinstance(out.value, tuple) and out.value[0] == 1 and out.value[1] is args[0], f"{fname}:{tag}", fn.where(out.node), f"{fname} must keep the first operand's unit for {tag} calls", args[0], out, rid=r5)
         for a in recs:
